@@ -282,6 +282,9 @@ def gen(rng, tier):
                      + " ".join(evs))
     # keep-age: old pre-existing files go at the first event, young ones stay
     cases.append("writer E g0 100 7200000 E g1 100 130000 E g2 100 20000 E p3 100 200000 E o4 100 7200000 S 65536 655360 60 0 snap e100 snap e100 snap")
+    # rotation by age, and an event that waited 1.3 s between being built and reaching the writer (write age 1 s):
+    # the file it finds is too old by the writer's clock, whatever time the event itself carries
+    cases.append("writer S 65536 131072 0 1 snap e300 snap H 1300 e%d snap e300 snap" % ev_size(rng, 100, 2000))
     # long streams
     if quick:
         cases.append(gen_writer_case(rng, 2000, 64 * KIB, int(64 * KIB * 3.5), npre=3, restarts=2, snap_every=100))
@@ -382,7 +385,7 @@ def _split_set(t):
 def _split_writer(t):
     ops, i = [], 1
     while i < len(t):
-        k = {"E": 4, "S": 5, "snap": 1, "X": 2, "Z": 2}.get(t[i], 1)
+        k = {"E": 4, "S": 5, "snap": 1, "X": 2, "Z": 2, "H": 2}.get(t[i], 1)
         ops.append(t[i:i + k])
         i += k
     return ops
